@@ -1,9 +1,21 @@
 #!/bin/bash
-# Build one harness binary exactly the way ./check does (same RUSTFLAGS / target dir, so no rebuild thrash).
-# usage: tools/hbuild.sh c13
+# Build one harness binary exactly the way ./check does (same RUSTFLAGS / target dir / family feature,
+# so no rebuild thrash).   usage: tools/hbuild.sh c13
 cd /verif/harness || exit 2
-export RUSTFLAGS="--cfg jsonrpsee_verif --check-cfg cfg(jsonrpsee_verif)"
+case "$1" in
+  srv) FEAT="--features fam-server" ;;
+  c04|c06) FEAT="--features fam-subs" ;;
+  c03|c05|c09|c12|c18) FEAT="--features fam-client" ;;
+  c10|c11) FEAT="--features fam-conn" ;;
+  *) FEAT="" ;;
+esac
 export CARGO_NET_OFFLINE=true
-export CARGO_TARGET_DIR=/verif/.build/target
 mkdir -p /verif/.build
-exec flock /verif/.build/cargo.lock cargo build --release --offline --bin "$1"
+if [ "$1" = "c18" ]; then
+  export RUSTFLAGS="--cfg jsonrpsee_verif --check-cfg cfg(jsonrpsee_verif)"
+  export CARGO_TARGET_DIR=/verif/.build/target-hook
+else
+  export RUSTFLAGS="--check-cfg cfg(jsonrpsee_verif)"
+  export CARGO_TARGET_DIR=/verif/.build/target
+fi
+exec flock /verif/.build/cargo.lock cargo build --release --offline --bin "$1" $FEAT
